@@ -1,7 +1,7 @@
 From Coq Require Import List NArith ZArith Bool.
 From SK Require Import lib.LGraph lib.Mono.
 From SK Require model.C06_Model model.C11_Model.
-From SK Require Import model.C03_Model model.C05_Model proof.C05_Proof proof.C05_Glue proof.C05_Pipe proof.C05_Prep proof.C05_Comp proof.C05_Main proof.C05_Order proof.C05_Sub proof.C05_Set proof.C05_Result.
+From SK Require Import model.C03_Model model.C05_Model proof.C05_Proof proof.C05_Glue proof.C05_Pipe proof.C05_Prep proof.C05_Comp proof.C05_Main proof.C05_Order proof.C05_Sub proof.C05_Set proof.C05_Result proof.C05_AllStrat proof.C05_PrepOrder proof.C05_Final.
 From SK Require Import lib.C06_Spec proof.C06_Comp.
 From SK Require proof.C11_Dedup.
 From Coq Require Import Permutation.
@@ -30,8 +30,14 @@ Theorem C05_vocabulary :
                         (node_ids (host_c06 host)) (node_ids (pat_c06 (p_pat p)))) <= DEFAULT_THRESHOLD)%N /\
      NoDup (node_ids (p_rc p)) /\ simple_edgesb (gedges (p_rc p)) = true /\
      (forall a b x, In (a, b, x) (gedges (p_rc p)) -> In a (node_ids (p_rc p)) /\ In b (node_ids (p_rc p))) /\
-     (forall u, In u (node_ids (p_pat p)) -> In u (node_ids (p_rc p)))).
-Proof. exact vocabulary. Qed.
+     (forall u, In u (node_ids (p_pat p)) -> In u (node_ids (p_rc p)))) /\
+  (* [side_ok_c]: the facts above and the component-aware search below the engine's threshold *)
+  (forall host p, side_okb host p = true ->
+     (comp_bound (C06_Model.monos_on (host_c06 host) (pat_c06 (p_pat p))) true (host_c06 host) (pat_c06 (p_pat p)) <= DEFAULT_THRESHOLD)%N ->
+     side_ok_c host p).
+Proof. exact (conj (proj1 vocabulary) (conj (proj1 (proj2 vocabulary)) (conj (proj1 (proj2 (proj2 vocabulary)))
+         (conj (proj1 (proj2 (proj2 (proj2 vocabulary)))) (conj (proj2 (proj2 (proj2 (proj2 vocabulary))))
+           (fun host p S B => conj (side_okb_ok host p S) B)))))). Qed.
 Print Assumptions C05_vocabulary.
 
 (** 1. Gluing is equivariant: the relabelled rule glued onto the relabelled substrate along the transported match is the
@@ -119,12 +125,12 @@ Print Assumptions C05_prune_sound.
     renumbered inputs are literally the renumbered ones, one for one and in the same order.  In particular nothing in
     the pipeline looks at the numbers (no tie-break by node id, no anchor by smallest id: the defect repaired by aa7fe3c).
     NOT IN THIS LITERAL FORM: (i) insertion-order changes — the kept representative of a class and the order of the lists
-    change; the set-level statement for the exhaustive strategy is section 7; (ii) the explicit-hydrogen path: new
+    change; the set-level statements are sections 7 and 8; (ii) the explicit-hydrogen path: new
     hydrogen ids and h_pairs ids are allocated in numeric order, so results are isomorphic, not literally renumbered;
     (iii) the RDKit half.  All three are exercised on every run: the correspondence compares the multiset of glued graphs
     of every writing and strategy with the implementation (whose VF2 order differs from the model's), the oracle
     compares reaction sets across writings. *)
-Theorem C05_result_set_invariant_partial :
+Theorem C05_result_list_equivariant :
   forall (strat : N) (sg pi : N -> N), inj sg -> inj pi ->
   forall (host : hostg) (p : prepared), p_flag p = false ->
     kept_of strat (relabel pi host) (relabel_prep sg p) = map (mv sg pi) (kept_of strat host p) /\
@@ -136,13 +142,13 @@ Proof.
   - apply glued_relabel; assumption.
   - apply results_relabel; assumption.
 Qed.
-Print Assumptions C05_result_set_invariant_partial.
+Print Assumptions C05_result_list_equivariant.
 
 (** 5c. End to end from the template (implicit-hydrogen mode: SynReactor(..., implicit_temp=True, explicit_h=False), both
     directions, every strategy, prepared pattern without explicit X-H bonds): rule preparation commutes with the
     renumbering of the template, hence the result list of the renumbered (substrate, template) pair is the renumbered
     result list.  Same restrictions as 5b otherwise. *)
-Theorem C05_pipeline_invariant_partial :
+Theorem C05_pipeline_equivariant_implicit :
   forall (strat : N) (sg pi : N -> N), inj sg -> inj pi ->
   forall (inv : bool) (host : hostg) (tpl : its) (p : prepared),
     prepare inv true tpl = Some p -> p_flag p = false ->
@@ -154,7 +160,7 @@ Proof.
   - apply prepare_relabel; assumption.
   - eapply pipeline_relabel_any; eassumption.
 Qed.
-Print Assumptions C05_pipeline_invariant_partial.
+Print Assumptions C05_pipeline_equivariant_implicit.
 
 (** 2'. Insertion order.  [same_graph g g'] : the same node ids, labels and adjacency, whatever the insertion order of
     nodes and bonds and the orientation of the stored bonds (what a SMILES rewriting changes besides the numbering).
@@ -226,8 +232,8 @@ Print Assumptions C05_glue_order_independent.
     premises [side_okb] are evaluated by the correspondence on every writing of every case.)
     With the RDKit contract (rewritten SMILES parse to the same graph up to numbering and order; isomorphic ITS graphs
     serialise to equal standardised strings) this is the property's first clause for the exhaustive strategy.
-    Not covered: COMPONENT/BACKTRACK under re-ordering (under renumbering: 5b), the explicit-hydrogen path, the
-    _explicit_h stage, rule preparation under re-ordering of the template (under renumbering: 5c). *)
+    Every strategy: section 8 (one more premise).  Not covered: the explicit-hydrogen path, the _explicit_h stage, rule
+    preparation under re-ordering of the template (under renumbering: 5c). *)
 Theorem C05_result_set_invariant_exhaustive :
   forall (sg pi : N -> N), inj sg -> inj pi ->
   forall (host host'' : hostg) (p p'' : prepared),
@@ -241,3 +247,65 @@ Proof.
   exact (glued_set_rewriting sg pi Hs Hp host host'' p p'' (side_okb_ok _ _ S) (side_okb_ok _ _ S'')).
 Qed.
 Print Assumptions C05_result_set_invariant_exhaustive.
+
+(** 8. C05_result_set_invariant — the clause for EVERY strategy (0 exhaustive, 1 component-aware, 2 fallback), at graph
+    level.  FULL CLAUSE (property text): the set of distinct reactions is unchanged when the substrate SMILES is
+    rewritten and the template's map numbers are permuted, for all strategies, modes and directions.
+    PROVED: for every strategy, every renumbering (sg, pi) and every re-ordering of atoms, bonds and bond orientations
+    of substrate, rule graph and pattern, the glued ITS graphs of the rewritten inputs are, as a set of observationally
+    equal graphs, exactly the renumbered glued ITS graphs of the original.  Premises per writing: [side_okb] (evaluated
+    by the correspondence on every writing) and, for the component-aware search, its longest intermediate list below
+    the engine's threshold ([comp_bound], a function of the C06 specification, not evaluated per case: past the
+    threshold the engine empties results, which is outside the property).
+    MISSING for the full clause: (i) the RDKit half — rewritten SMILES parse to [same_graph]s up to numbering, and
+    observationally equal ITS graphs serialise to equal standardised strings (oracle contract, monitored by the
+    metamorphic oracle on every case); (ii) patterns that keep explicit X-H bonds (re-matching on the hydrogen-expanded
+    substrate) and the _explicit_h stage of the default mode: fresh hydrogen ids are allocated in numeric order, the
+    statement needs isomorphism instead of renumbering; (iii) rule preparation in the default mode
+    (_strip_explicit_h assigns hydrogen-pair ids in numeric order); in implicit-hydrogen mode the statement from the
+    TEMPLATE is section 9.  (ii) and (iii) are compared with the implementation on every run (multisets of glued graphs
+    per writing and strategy). *)
+Theorem C05_result_set_invariant_partial :
+  forall (strat : N), strat = 0%N \/ strat = 1%N \/ strat = 2%N ->
+  forall (sg pi : N -> N), inj sg -> inj pi ->
+  forall (host host'' : hostg) (p p'' : prepared),
+    side_okb (relabel pi host) (relabel_prep sg p) = true -> side_okb host'' p'' = true ->
+    (comp_bound (C06_Model.monos_on (host_c06 (relabel pi host)) (pat_c06 (p_pat (relabel_prep sg p)))) true
+                (host_c06 (relabel pi host)) (pat_c06 (p_pat (relabel_prep sg p))) <= DEFAULT_THRESHOLD)%N ->
+    (comp_bound (C06_Model.monos_on (host_c06 host'') (pat_c06 (p_pat p''))) true (host_c06 host'') (pat_c06 (p_pat p''))
+       <= DEFAULT_THRESHOLD)%N ->
+    same_graph (relabel pi host) host'' -> same_graph (relabel sg (p_rc p)) (p_rc p'') ->
+    same_graph (relabel sg (p_pat p)) (p_pat p'') ->
+    (forall T, In T (glued_of strat host p) -> exists T'', In T'' (glued_of strat host'' p'') /\ obs_eq (relabel pi T) T'') /\
+    (forall T'', In T'' (glued_of strat host'' p'') -> exists T, In T (glued_of strat host p) /\ obs_eq (relabel pi T) T'').
+Proof.
+  intros strat Hst sg pi Hs Hp host host'' p p'' S S'' B B''.
+  exact (glued_set_rewriting_any strat sg pi Hs Hp host host'' p p'' Hst
+           (conj (side_okb_ok _ _ S) B) (conj (side_okb_ok _ _ S'') B'')).
+Qed.
+Print Assumptions C05_result_set_invariant_partial.
+
+(** 9. From the template, implicit-hydrogen mode (SynReactor(..., implicit_temp=True, explicit_h=False)), both
+    directions, every strategy: if the substrate is rewritten (renumbered by pi, any re-ordering) and the template ITS is
+    rewritten (map numbers permuted by sg, any re-ordering of its node and edge lists), then the rewritten template is
+    prepared into a rule again, both pipelines return their glued graphs, and the two result sets correspond one to one
+    up to the renumbering (premises [side_ok_c] = [side_okb] + the component-aware bound, as in 8).  Rule preparation
+    (its_decompose, typesGH refresh, _invert_template, the explicit X-H test) only depends on the template as a graph. *)
+Theorem C05_pipeline_set_invariant_implicit :
+  forall (strat : N), strat = 0%N \/ strat = 1%N \/ strat = 2%N ->
+  forall (sg pi : N -> N) (inv : bool) (host host'' : hostg) (tpl tpl'' : its) (p : prepared),
+    inj sg -> inj pi ->
+    prepare inv true tpl = Some p -> p_flag p = false ->
+    simple_edgesb (gedges tpl) = true -> simple_edgesb (gedges tpl'') = true ->
+    same_graph (relabel pi host) host'' -> same_graph (relabel sg tpl) tpl'' ->
+    exists p'', prepare inv true tpl'' = Some p'' /\ p_flag p'' = false /\
+      pipeline inv true false strat host tpl = Some (glued_of strat host p) /\
+      pipeline inv true false strat host'' tpl'' = Some (glued_of strat host'' p'') /\
+      (side_ok_c (relabel pi host) (relabel_prep sg p) -> side_ok_c host'' p'' ->
+       (forall T, In T (glued_of strat host p) -> exists T'', In T'' (glued_of strat host'' p'') /\ obs_eq (relabel pi T) T'') /\
+       (forall T'', In T'' (glued_of strat host'' p'') -> exists T, In T (glued_of strat host p) /\ obs_eq (relabel pi T) T'')).
+Proof.
+  intros strat Hst sg pi inv host host'' tpl tpl'' p Hs Hp.
+  exact (pipeline_set_invariant strat sg pi inv host host'' tpl tpl'' p Hst Hs Hp).
+Qed.
+Print Assumptions C05_pipeline_set_invariant_implicit.
